@@ -189,3 +189,32 @@ k("model_from_impls", _MODEL, "complete",
 k("model_std_wrapping_contracts", ["C08"], "complete",
   "decidable part of the assumed std contracts: wrapping_neg against 128-bit arithmetic; wrapping_div/rem for b in {1,-1} and "
   "their sign rules", domain=ALLI, inputs=I2, functions=["i64::wrapping_neg", "i64::wrapping_div", "i64::wrapping_rem"])
+
+# ---- C13: the update kernel on a REAL Arc<Mut> cell (RwLock and all) -------------------------------------------
+k("c13_assign_exec_add_cell", ["C13", "C08"], "complete",
+  "assign::exec on a real cell: yields content + v and the cell (read through an alias) holds the yielded value",
+  domain=ALLI, inputs=I2, probe="cells", functions=["assign::exec", "add::exec"],
+  twins=["assign.exec.stored.stores_the_operator_result_it_yields", "assign.exec.stored.yields_operator_applied_to_content_at_update",
+         "assign.exec.stored.nothing_stored_before_the_operator_returns", "assign.exec.stored.safe"])
+k("c13_assign_exec_plain_assignment_cell", ["C13"], "complete",
+  "`c = v` (assign::exec with the closure |_, b| b) on a real cell: stores v and yields v", domain=ALLI, inputs=I2, probe="cells",
+  functions=["assign::exec"])
+k("c13_assign_try_exec_divide_cell", ["C13", "C08"], "complete",
+  "assign::try_exec with divide::exec on a real cell: b == 0 -> ZeroDivision and the cell keeps its content; b != 0 -> stored == yielded "
+  "(quotient value pinned for b in {1, -1} and a == 0; the general quotient is divide.exec.trunc_value in V)",
+  domain=ALLI, inputs=I2, probe="cells", functions=["assign::try_exec", "divide::exec"],
+  twins=["assign.try_exec.stored.stores_the_operator_result_it_yields", "assign.try_exec.stored.nothing_stored_before_the_operator_returns",
+         "assign.try_exec.stored.yields_operator_applied_to_content_at_update", "assign.try_exec.stored.safe"])
+k("c13_assign_try_exec_shift_cell", ["C13", "C08"], "complete",
+  "assign::try_exec with lshift::exec on a real cell: in range -> stores and yields content << v; out of range -> OverflowShift and "
+  "the cell keeps its content", domain=ALLI, inputs=I2, probe="cells", functions=["assign::try_exec", "lshift::exec"])
+k("c13_assign_try_exec_divide_small_divisors_cell", ["C13"], "bounded",
+  "quotient value through a real cell", domain="all a in i64", bound="b in {1, 2, -1}", inputs=I2, probe="cells",
+  functions=["assign::try_exec", "divide::exec"])
+k("c13_indirection_reads_cell", ["C13"], "complete", "`*c` on a real cell yields its content", domain="all a in i64", inputs=("i64",),
+  probe="cells", functions=["indirection::exec"], twins=["indirection.exec.yields_current_content", "indirection.exec.safe"])
+# ---- std contract the abstract machine assumes for statement lists ------------------------------------------------
+k("model_iter_map_collect_left_to_right_stops_at_first_err", ["C07", "C04", "C12"], "bounded",
+  "std: iter().map(f).collect::<Result<Arc<[_]>, _>>() calls f left to right, once per element, and stops at the first Err "
+  "(the contract assumed for Interpreter::exec and recreate_instructions)", bound="3 elements, every Ok/Err pattern",
+  functions=["std::iter::Iterator::map + collect"])
